@@ -54,15 +54,120 @@ package zapcore
 //@ func (zapcore.consoleEncoder).writeContext
 //@   props C16 C07 C08
 //@   flags nopanic propagates-panics
-//@   requires line != nil && c.jsonEncoder != nil && fragInv(c.jsonEncoder) && _jsonPool != nil
+//@   requires line != nil && c.jsonEncoder != nil && fragInv(c.jsonEncoder) && _jsonPool != nil && line != c.jsonEncoder.buf
 //@   requires forall i int :: 0 <= i && i < len(extra) ==> wfEnc(extra[i])
 //@   assumes arr(line.bs) == nil || root(arr(line.bs)) != root(arr(c.jsonEncoder.buf.bs))
 //@   ghost-at call 1 of (*buffer.Buffer).Write before jctx[line] = cat("{", seq(context.buf.bs), "}")
 //@   stepinv *c.jsonEncoder == old(*c.jsonEncoder) && c.jsonEncoder.buf.bs == old(c.jsonEncoder.buf.bs)
 //@   stepinv seq(c.jsonEncoder.buf.bs) == old(seq(c.jsonEncoder.buf.bs))
-//@   stepinv !was_allocated(context) && (context.buf != nil ==> !was_allocated(context.buf) && (arr(context.buf.bs) == nil || !was_allocated(arr(context.buf.bs))) && jstart[context.buf] == JFrag0 && jbase[context] == SObj1 && context.buf.pool.p != nil)
-//@   stepinv context.reflectBuf != nil ==> !was_allocated(context.reflectBuf) && (arr(context.reflectBuf.bs) == nil || !was_allocated(arr(context.reflectBuf.bs)))
-//@   modifies $user, line.bs, comp(E:uint8), fields(zapcore.jsonEncoder), buffer.Buffer.bs
+//@   stepinv !was_allocated(context) && (context != nil && context.buf != nil ==> !was_allocated(context.buf) && (arr(context.buf.bs) == nil || !was_allocated(arr(context.buf.bs))) && jstart[context.buf] == JFrag0 && jbase[context] == SObj1 && context.buf.pool.p != nil)
+//@   stepinv context != nil && context.reflectBuf != nil ==> !was_allocated(context.reflectBuf) && (arr(context.reflectBuf.bs) == nil || !was_allocated(arr(context.reflectBuf.bs)))
+//@   stepinv elems_frame(type(uint8), old(line.bs)) && (arr(line.bs) == old(arr(line.bs)) || fresh(line.bs))
+//@   stepinv only_changed(buffer.Buffer.bs, line)
+//@   stepinv line.bs == old(line.bs) ==> seq(line.bs) == old(seq(line.bs))
+//@   stepinv only_changed(zapcore.jsonEncoder.EncoderConfig, nil) && only_changed(zapcore.jsonEncoder.buf, nil) && only_changed(zapcore.jsonEncoder.spaced, nil)
+//@   stepinv only_changed(zapcore.jsonEncoder.openNamespaces, nil) && only_changed(zapcore.jsonEncoder.reflectBuf, nil) && only_changed(zapcore.jsonEncoder.reflectEnc, nil)
+//@   stepinv only_changed(zapcore.sliceArrayEncoder.elems, nil)
+//@   modifies $user, line.bs, comp(E:uint8), fields(zapcore.jsonEncoder), buffer.Buffer.bs, jctx[line], fields(zapcore.sliceArrayEncoder)
+//@   ensures elems_frame(type(uint8), old(line.bs)) && (arr(line.bs) == old(arr(line.bs)) || fresh(line.bs)) && only_changed(buffer.Buffer.bs, line) && type_frame(type(zapcore.jsonEncoder)) && only_changed(zapcore.sliceArrayEncoder.elems, nil)
 //@   ensures *c.jsonEncoder == old(*c.jsonEncoder) && c.jsonEncoder.buf.bs == old(c.jsonEncoder.buf.bs) && seq(c.jsonEncoder.buf.bs) == old(seq(c.jsonEncoder.buf.bs))
-//@   ensures len(line.bs) == old(len(line.bs)) ==> line.bs == old(line.bs)
+//@   ensures len(line.bs) == old(len(line.bs)) ==> line.bs == old(line.bs) && seq(line.bs) == old(seq(line.bs))
 //@   ensures len(line.bs) != old(len(line.bs)) ==> seq(line.bs) == cat(old(seq(line.bs)), (old(len(line.bs)) > 0 ? c.jsonEncoder.EncoderConfig.ConsoleSeparator : ""), jctx[line]) && jsonDone(jrun(J0, jctx[line]))
+
+// ---------------------------------------------------------------------------
+// EncodeEntry (C16): column sub-encoders run in the fixed order time, level, name, caller (each exactly
+// when its key and encoder are set and the entry carries a value), then the function column; one
+// Fprint per collected column, separator only between columns; the message, preceded by a separator
+// when the line is non-empty, whenever its key is set; the context object by writeContext; the stack on
+// the following line; the line ending. The embedded encoder is not written.
+
+//@ ghost var cs1 map(Ref, Bytes)
+//@ ghost var cs2 map(Ref, Bytes)
+//@ ghost var cs3 map(Ref, Bytes)
+
+// fmt.Fprint(w, ...) with w a *buffer.Buffer appends to that buffer only (assumed; the text is fmt's).
+//@ macro fprintFrame(w Iface) bool = typeof(w) == type(*buffer.Buffer) ==> only_changed(buffer.Buffer.bs, as(w, type(*buffer.Buffer))) && elems_frame(type(uint8), old(as(w, type(*buffer.Buffer)).bs)) && (arr(as(w, type(*buffer.Buffer)).bs) == old(arr(as(w, type(*buffer.Buffer)).bs)) || fresh(as(w, type(*buffer.Buffer)).bs))
+//@ extern func fmt.Fprint
+//@   modifies $user, comp(H:buffer.Buffer.bs), comp(E:uint8)
+//@   ensures fprintFrame(w)
+
+//@ func (*zapcore.sliceArrayEncoder).AppendString
+//@   props C16
+//@   flags nopanic
+//@   requires s != nil
+//@   modifies s.elems, comp(E:interface__)
+//@   ensures len(s.elems) == old(len(s.elems)) + 1
+
+//@ func (zapcore.consoleEncoder).EncodeEntry
+//@   props C16 C07 C08
+//@   refines zapcore.Encoder.EncodeEntry
+//@   flags nopanic propagates-panics
+//@   requires _sliceEncoderPool != nil
+//@   requires forall i int :: 0 <= i && i < len(fields) ==> wfEnc(fields[i])
+//@   track TM = calltype zapcore.TimeEncoder
+//@   track LV = calltype zapcore.LevelEncoder
+//@   track NM = calltype zapcore.NameEncoder
+//@   track CL = calltype zapcore.CallerEncoder
+//@   track FN = call (*zapcore.sliceArrayEncoder).AppendString
+//@   track IZ = call (time.Time).IsZero
+//@   track FP = call fmt.Fprint
+//@   track WC = call (zapcore.consoleEncoder).writeContext
+//@   ghost-at call 1 of zapcore.putSliceEncoder before cs1[line] = seq(line.bs)
+//@   ghost-at call 1 of (zapcore.consoleEncoder).writeContext before cs2[line] = seq(line.bs)
+//@   ghost-at call 1 of (zapcore.consoleEncoder).writeContext after cs3[line] = seq(line.bs)
+//@   stepinv !was_allocated(line) && line != c.jsonEncoder.buf && (arr(line.bs) == nil || !was_allocated(arr(line.bs))) && line.pool.p != nil
+//@   stepinv *c.jsonEncoder == old(*c.jsonEncoder) && c.jsonEncoder.buf.bs == old(c.jsonEncoder.buf.bs) && *c.jsonEncoder.EncoderConfig == old(*c.jsonEncoder.EncoderConfig)
+//@   stepinv seq(c.jsonEncoder.buf.bs) == old(seq(c.jsonEncoder.buf.bs))
+//@   stepinv elems_frame(type(uint8), zero(type([]uint8)))
+//@   stepinv type_frame(type(buffer.Buffer))
+//@   stepinv only_changed(zapcore.jsonEncoder.EncoderConfig, nil) && only_changed(zapcore.jsonEncoder.buf, nil) && only_changed(zapcore.jsonEncoder.spaced, nil)
+//@   stepinv only_changed(zapcore.jsonEncoder.openNamespaces, nil) && only_changed(zapcore.jsonEncoder.reflectBuf, nil) && only_changed(zapcore.jsonEncoder.reflectEnc, nil)
+//@   modifies $user, comp(E:uint8), buffer.Buffer.bs, fields(zapcore.jsonEncoder), fields(zapcore.sliceArrayEncoder), comp(E:interface__), cs1, cs2, cs3, jctx
+//@   ensures result.1 == nil && result.0 != nil && fresh(result.0) && result.0.pool.p != nil
+//@   ensures #TM <= 1 && #LV <= 1 && #NM <= 1 && #CL <= 1 && #FN <= 1 && #WC == 1
+//@   ensures #TM == 1 ==> c.jsonEncoder.EncoderConfig.TimeKey != "" && c.jsonEncoder.EncoderConfig.EncodeTime != nil && #IZ == 1 && !IZ.ret0[0] && TM.arg0[0] == ent.Time
+//@   ensures c.jsonEncoder.EncoderConfig.TimeKey != "" && c.jsonEncoder.EncoderConfig.EncodeTime != nil ==> #IZ == 1 && (IZ.ret0[0] || #TM == 1)
+//@   ensures #LV == 1 <==> (c.jsonEncoder.EncoderConfig.LevelKey != "" && c.jsonEncoder.EncoderConfig.EncodeLevel != nil)
+//@   ensures #LV == 1 ==> LV.arg0[0] == ent.Level
+//@   ensures #NM == 1 <==> (ent.LoggerName != "" && c.jsonEncoder.EncoderConfig.NameKey != "")
+//@   ensures #NM == 1 ==> NM.arg0[0] == ent.LoggerName
+//@   ensures #CL == 1 <==> (ent.Caller.Defined && c.jsonEncoder.EncoderConfig.CallerKey != "" && c.jsonEncoder.EncoderConfig.EncodeCaller != nil)
+//@   ensures #FN == 1 <==> (ent.Caller.Defined && c.jsonEncoder.EncoderConfig.FunctionKey != "")
+//@   ensures #FN == 1 ==> FN.arg0[0] == ent.Caller.Function
+//@   ensures #TM == 1 && #LV == 1 ==> TM.ts[0] < LV.ts[0]
+//@   ensures #LV == 1 && #NM == 1 ==> LV.ts[0] < NM.ts[0]
+//@   ensures #TM == 1 && #NM == 1 ==> TM.ts[0] < NM.ts[0]
+//@   ensures #NM == 1 && #CL == 1 ==> NM.ts[0] < CL.ts[0]
+//@   ensures #LV == 1 && #CL == 1 ==> LV.ts[0] < CL.ts[0]
+//@   ensures #CL == 1 && #FN == 1 ==> CL.ts[0] < FN.ts[0]
+//@   ensures #NM == 1 && #FN == 1 ==> NM.ts[0] < FN.ts[0]
+//@   ensures #FP >= 1 ==> FP.ts[0] < WC.ts[0]
+//@   ensures cs2[result.0] == (c.jsonEncoder.EncoderConfig.MessageKey != "" ? cat(cs1[result.0], (len(cs1[result.0]) > 0 ? c.jsonEncoder.EncoderConfig.ConsoleSeparator : ""), ent.Message) : cs1[result.0])
+//@   ensures cs3[result.0] == cs2[result.0] || (cs3[result.0] == cat(cs2[result.0], (len(cs2[result.0]) > 0 ? c.jsonEncoder.EncoderConfig.ConsoleSeparator : ""), jctx[result.0]) && jsonDone(jrun(J0, jctx[result.0])))
+//@   ensures seq(result.0.bs) == cat(cs3[result.0], ((ent.Stack != "" && c.jsonEncoder.EncoderConfig.StacktraceKey != "") ? cat("\n", ent.Stack) : ""), c.jsonEncoder.EncoderConfig.LineEnding)
+//@   ensures *c.jsonEncoder == old(*c.jsonEncoder) && c.jsonEncoder.buf.bs == old(c.jsonEncoder.buf.bs) && seq(c.jsonEncoder.buf.bs) == old(seq(c.jsonEncoder.buf.bs))
+//@   stepinv only_changed(zapcore.sliceArrayEncoder.elems, nil)
+//@   loop 1 invariant 0 <= $idx && $idx <= len(arr.elems) && #FP == $idx
+//@   loop 1 invariant forall k int :: 0 <= k && k < #FP ==> FP.ts[k] < clk()
+//@   loop 1 invariant !was_allocated(line) && line != c.jsonEncoder.buf && (arr(line.bs) == nil || !was_allocated(arr(line.bs))) && line.pool.p != nil
+//@   loop 1 invariant *c.jsonEncoder == old(*c.jsonEncoder) && c.jsonEncoder.buf.bs == old(c.jsonEncoder.buf.bs) && *c.jsonEncoder.EncoderConfig == old(*c.jsonEncoder.EncoderConfig)
+//@   loop 1 invariant seq(c.jsonEncoder.buf.bs) == old(seq(c.jsonEncoder.buf.bs))
+//@   loop 1 invariant elems_frame(type(uint8), zero(type([]uint8)))
+//@   loop 1 invariant type_frame(type(buffer.Buffer))
+//@   loop 1 invariant type_frame(type(zapcore.jsonEncoder)) && only_changed(zapcore.sliceArrayEncoder.elems, nil)
+//@   loop 1 invariant #TM <= 1 && #LV <= 1 && #NM <= 1 && #CL <= 1 && #FN <= 1 && #WC == 0
+
+//@ func (zapcore.consoleEncoder).Clone
+//@   props C16 C07
+//@   refines zapcore.Encoder.Clone
+//@   flags nopanic
+//@   modifies comp(E:uint8)
+//@   ensures isC(result) && fresh(jenc(result)) && fresh(jenc(result).buf) && fragInv(jenc(result)) && seq(jenc(result).buf.bs) == old(seq(c.jsonEncoder.buf.bs)) && jenc(result).openNamespaces == c.jsonEncoder.openNamespaces
+//@   ensures elems_frame(type(uint8), zero(type([]uint8)))
+
+//@ func zapcore.NewConsoleEncoder
+//@   props C16 C07
+//@   flags nopanic
+//@   requires _jsonPool != nil
+//@   modifies nothing
+//@   ensures result != nil && encInv(result) && isC(result)
